@@ -70,7 +70,28 @@ def make_model(typ, state):
         return Models.HyperElastic.NeoHookean(2, K=p["K"], thickness=p["thickness"])
     if typ == "Beam":
         return make_beam_model(state)
+    if typ == "InElastic":
+        el = Models.Elastic.Isotropic(3, E=p["E"], v=p["v"])
+        return Models.InElastic.Behavior(2, el, yieldSurface=Models.InElastic.Yield.VonMises(250.0),
+                                         hardening=Models.InElastic.IsotropicHardening.Linear(2000.0), thickness=p["thickness"])
+    if typ == "WeakForms":
+        return None   # built with the simulation: the field of a weak form is bound to an element group
     raise ValueError(typ)
+
+
+def make_weakforms_model(mesh, state):
+    from EasyFEA.FEM import Field, BiLinearForm
+    field = Field(mesh.groupElem, 1)
+
+    @BiLinearForm
+    def computeK(u, v):
+        return u.grad.dot(v.grad)
+
+    @BiLinearForm
+    def computeC(u, v):
+        return u.dot(v) if hasattr(u, "dot") else u * v
+
+    return Models.WeakForms(field, computeK, computeC, computeC, thickness=state["params"]["thickness"])
 
 
 DEFAULT_PARAMS = {
@@ -79,6 +100,8 @@ DEFAULT_PARAMS = {
     "PhaseField": {"E": 210000.0, "v": 0.3, "thickness": 1.0, "Gc": 2.7, "l0": 0.5},
     "HyperElastic": {"K": 5.0e4, "thickness": 1.0},
     "Beam": {"E": 210e9},
+    "InElastic": {"E": 210000.0, "v": 0.3, "thickness": 1.0},
+    "WeakForms": {"thickness": 1.0},
 }
 
 _BEAM = {}
@@ -106,7 +129,9 @@ def make_beam_model(state):
 
 
 def set_param(typ, model, sub, name, value):
-    if typ == "PhaseField" and sub:
+    if typ == "InElastic" and sub:
+        setattr(model.elastic, name, value)
+    elif typ == "PhaseField" and sub:
         setattr(model.material, name, value)
     elif typ == "Beam":
         for b in model.beams:
@@ -126,6 +151,7 @@ class SimRec:
         self.ray = None
         self.algo = None
         self.bcs = []
+        self.hist_live = False    # False: no internal variable (history field, material state) was committed / restored on the current mesh
         self.state_live = False   # False: the solution state is the blank one of a just built / just re-meshed simulation
 
     def flags(self):
@@ -147,6 +173,10 @@ def make_sim(typ, mesh, model):
             return Simulations.HyperElastic(mesh, model, absTol=1e-9)
         if typ == "Beam":
             return Simulations.Beam(mesh, model, verbosity=False)
+        if typ == "InElastic":
+            return Simulations.InElastic(mesh, model, absTol=1e-9)
+        if typ == "WeakForms":
+            return Simulations.WeakForms(mesh, model)
     raise ValueError(typ)
 
 
@@ -183,6 +213,8 @@ def apply_bc(rec, bc):
     nodes = np.array(bc["nodes"], dtype=int)
     if rec.typ == "Thermal":
         unk = ["t"]
+    elif rec.typ == "WeakForms":
+        unk = ["u"]
     elif rec.typ == "Beam":
         unk = ["x", "y", "rz"]
     else:
@@ -239,6 +271,8 @@ class World:
     def step(self, op):
         k = op["op"]
         if k == "newsim":
+            if self.typ == "WeakForms" and self.model is None:
+                self.model = make_weakforms_model(self.meshes[op["m"]], self.state)
             simu = make_sim(self.typ, self.meshes[op["m"]], self.model)
             if self.typ == "Beam":
                 # the Beam simulation works on its own (beam-element) mesh object
@@ -249,11 +283,31 @@ class World:
                 NAMED["corner"] = simu.mesh.Nodes_Point(Point(L, 0))
                 NAMED["tip"] = simu.mesh.Nodes_Point(Point(L, L))
             self.sims.append(SimRec(self.typ, simu))
+        elif k == "newmesh" and self.typ == "Beam":
+            P = beam_parts()
+            m = P["mesher"].Mesh_Beams(self.state["beams"], elemType="SEG2")
+            m.coord = m.coord * op.get("lx", 1.0)
+            self.meshes.append(m)
         elif k == "newmesh":
             self.meshes.append(quad_mesh(op["nx"], op["ny"], op.get("lx", 1.0) * self.scale, op.get("ly", 1.0) * self.scale, op.get("elem", "QUAD4")))
         elif k == "param":
+            self.state.pop("arr_" + op["name"], None)
             self.state["params"][op["name"]] = op["value"]
             set_param(self.typ, self.model, op.get("sub", False), op["name"], op["value"])
+        elif k == "param_arr":
+            # array-valued parameter (one value per element of mesh 0).  same=False: a NEW array object is assigned;
+            # same=True: the array object assigned before is edited IN PLACE by the user and assigned again
+            Ne = self.meshes[0].Ne
+            vals = op["base"] * (1.0 + op["amp"] * np.cos(np.arange(Ne) * op["freq"]))
+            name = op["name"]
+            if op.get("same") and self.state.get("arr_" + name) is not None:
+                arr = self.state["arr_" + name]
+                arr[:] = vals
+            else:
+                arr = np.array(vals)
+                self.state["arr_" + name] = arr
+            self.state["params"][name] = arr.copy()
+            set_param(self.typ, self.model, op.get("sub", False), name, arr)
         elif k == "move":
             m = self.meshes[op["m"]]
             kind = op["kind"]
@@ -295,6 +349,7 @@ class World:
                 s.mesh = self.meshes[op["m"]]
                 rec.bcs = []
                 rec.state_live = False
+                rec.hist_live = False
             elif k == "bcinit":
                 s.Bc_Init()
                 rec.bcs = []
@@ -308,14 +363,16 @@ class World:
             elif k == "getk":
                 if rec.typ == "PhaseField":
                     s.Get_K_C_M_F("damage" if op.get("dmg") else "elastic")
-                elif rec.typ != "HyperElastic":
+                elif rec.typ not in ("HyperElastic", "InElastic"):
                     s.Get_K_C_M_F()
             elif k == "solve":
                 rec.state_live = True
                 do_solve(rec)
             elif k == "saveiter":
+                rec.hist_live = True
                 s.Save_Iter()
             elif k == "setiter":
+                rec.hist_live = True
                 rec.state_live = True
                 s.Set_Iter(op["j"])
             else:
@@ -325,7 +382,8 @@ class World:
     def fresh(self, rec):
         """a simulation constructed directly in the final configuration of rec"""
         s = rec.simu
-        state = {"params": dict(self.state["params"]), "split": self.state["split"]}
+        state = {"params": {k_: (v_.copy() if isinstance(v_, np.ndarray) else v_) for k_, v_ in self.state["params"].items()},
+                 "split": self.state["split"]}
         model = make_model(self.typ, state)
         if self.typ == "Beam":
             # Beam builds its own beam-element mesh from the coordinates of the mesh it is given
@@ -336,6 +394,8 @@ class World:
             mesh = base
         else:
             mesh = clone_mesh(s.mesh)
+        if self.typ == "WeakForms":
+            model = make_weakforms_model(mesh, state)
         f = make_sim(self.typ, mesh, model)
         frec = SimRec(self.typ, f)
         if rec.rho is not None:
@@ -353,6 +413,11 @@ class World:
             return frec
         for pt in s.Get_problemTypes():
             f._Set_solutions(pt, s._Get_u_n(pt), s._Get_v_n(pt), s._Get_a_n(pt))
+        if not rec.hist_live:
+            return frec   # internal variables of a previous mesh must not be carried over: the reference keeps blank ones
+        if self.typ == "InElastic":
+            f._InElastic__zOld = copy.deepcopy(s._InElastic__zOld)
+            f._InElastic__z = copy.deepcopy(s._InElastic__z)
         if self.typ == "PhaseField":
             f._PhaseField__old_psiP_e_pg = copy.deepcopy(s._PhaseField__old_psiP_e_pg)
             f._PhaseField__psiP_e_pg = copy.deepcopy(s._PhaseField__psiP_e_pg)
@@ -360,13 +425,13 @@ class World:
 
     def ensure_wellposed(self, rec, frec):
         if not any(b["kind"] == "dirichlet" and not b.get("damage") for b in rec.bcs):
-            vals = {"Thermal": [1.0], "Beam": [0.0, 0.0, 0.0]}.get(self.typ, [0.0, 0.0])
+            vals = {"Thermal": [1.0], "WeakForms": [1.0], "Beam": [0.0, 0.0, 0.0]}.get(self.typ, [0.0, 0.0])
             bc = {"kind": "dirichlet", "where": "clamp" if self.typ == "Beam" else "left", "values": vals, "damage": False}
             for r in (rec, frec):
                 apply_bc(r, bc)
                 r.bcs.append(bc)
         if not any(b["kind"] == "neumann" for b in rec.bcs):
-            vals = {"Thermal": [5.0], "Beam": [0.0, 1000.0]}.get(self.typ, [0.0, 10.0])
+            vals = {"Thermal": [5.0], "WeakForms": [5.0], "Beam": [0.0, 1000.0]}.get(self.typ, [0.0, 10.0])
             where = "tip" if self.typ == "Beam" else "right"
             bc = {"kind": "neumann", "where": where, "values": vals, "damage": False}
             for r in (rec, frec):
@@ -402,6 +467,10 @@ class World:
             grab("Fd", lambda: s.Get_K_C_M_F("damage")[3])
             grab("solve_u", lambda: do_solve(rec)[0])
             grab("damage", lambda: s.damage)
+        elif rec.typ == "InElastic":
+            grab("solve_u", lambda: do_solve(rec))
+            grab("Svm", lambda: s.Result("Svm", nodeValues=False))
+            grab("state", lambda: np.concatenate([np.asarray(a, dtype=float).ravel() for a in s._InElastic__z.values()]))
         elif rec.typ == "HyperElastic":
             grab("solve_u", lambda: do_solve(rec))
             grab("v", lambda: s._Get_v_n(s.problemType))
@@ -419,6 +488,8 @@ class World:
                 grab("thermal", lambda: s.Result("thermal"))
             elif rec.typ == "Beam":
                 grab("ux", lambda: s.Result("ux"))
+            elif rec.typ == "WeakForms":
+                grab("u", lambda: s.Result("u"))
         return out
 
 
